@@ -46,9 +46,10 @@ def make_storage(url, cb, timeout0=False):
 def set_beat(storage, trial_id, beat):
     import sqlalchemy
 
+    first = beat == "fresh" and trial_id % 2 == 0        # an alive worker's FIRST heartbeat (insert path), else a later one
     with storage.engine.begin() as conn:
         conn.execute(sqlalchemy.text("DELETE FROM trial_heartbeats WHERE trial_id = :t"), {"t": trial_id})
-        if beat != "none":
+        if beat != "none" and not first:
             conn.execute(sqlalchemy.text("INSERT INTO trial_heartbeats (trial_id, heartbeat) VALUES (:t, datetime('now', '-1 day'))"),
                          {"t": trial_id})
     if beat == "fresh":
@@ -88,6 +89,11 @@ def execute(seed, mode, workdir):
 
     logging.getLogger("sqlalchemy.pool").setLevel(logging.CRITICAL)     # a killed worker's closed connection is expected
     rng = random.Random(seed)
+    # the worker's local time zone is not the database's (SQLite's clock is UTC): staleness must be decided on ONE clock
+    import time as _time
+
+    os.environ["TZ"] = ["UTC", "America/Los_Angeles", "Asia/Tokyo"][seed % 3]
+    _time.tzset()
     max_retry = rng.choice([-1, 0, 1, 1, 2])
     inherit = rng.randint(0, 1)
     tok = Tok()
